@@ -94,6 +94,10 @@ func (c ChainHandler) newBlockHandler(msg notify.Message) {
 		logger.Debugf("UnMarshal block error:%d", e.Error())
 		return
 	}
+	if block == nil || block.Header == nil {
+		logger.Debugf("Discard new block message without a complete header from %s", source)
+		return
+	}
 
 	msgHash := sha3.Sum256(m.BlockByte)
 	middleware.PerfLogger.Infof("Rcv new block from %s, msghash: %s, hash: %v,height: %d,totalQn: %d,tx: %d, cost: %v, size: %d", source, common.ToHex(msgHash[:]), block.Header.Hash.Hex(), block.Header.Height, block.Header.TotalQN, len(block.Transactions), utility.GetTime().Sub(block.Header.CurTime), len(m.BlockByte))
